@@ -46,6 +46,11 @@ func runC16(p *Prog, r *Report) {
 	ruleLayout(p, r, "fontscan", fontscanPairs, []string{"systemFontsIndex.serializeToFile", "deserializeIndexFile"}, 10)
 	r.Explain = append(r.Explain, "R-STAMP: every os.FileInfo that reaches newTimeStamp — the stamp stored in the index and compared to decide whether a previous scan is reused — comes (through parameters, up the call graph) from a stat that follows symbolic links (os.Stat, (*os.File).Stat), or from os.Lstat / fs.DirEntry.Info only where the entry was tested not to be a link. A necessary condition of 'incremental refresh == scan from scratch' when the target of a link is replaced or touched; the refresh over file-system histories itself is not decided.")
 	ruleStamp(p, r, "fontscan", "newTimeStamp", 1)
+	r.Explain = append(r.Explain,
+		"R-STAMP/eq: values of fontscan.timeStamp are compared for equality only (a stamp identifies a version of a file; an ordering keeps the footprint of a file replaced by an older one).",
+		"R-TRUNC: every file fontscan opens for writing is truncated (os.Create, or os.OpenFile with O_TRUNC, O_APPEND or O_EXCL in its constant flags): a shorter index must not keep the tail of the previous one.")
+	ruleStampIdentity(p, r, "fontscan", "timeStamp", 1)
+	ruleTruncOnWrite(p, r, "fontscan", 1)
 	r.Explain = append(r.Explain, "R-DRAIN: a function that reads the index through a gzip reader returns success only after io.Copy / io.ReadAll has read that reader to its end and its error was tested, on every path: the CRC-32 of the gzip trailer is verified only there, so a corrupted cache gives an error instead of stale or damaged footprints that an incremental refresh would keep.")
 	ruleDrain(p, r, "fontscan", 1)
 	r.Assumptions = append(r.Assumptions, "integer overflow of offset arithmetic is not modelled", "compress/gzip and bytes.Buffer are trusted", "incremental refresh versus from-scratch scan over file-system histories is behaviour over an external mutable world and is NOT decided; of the round trip only the writer/reader layout agreement (R-LAYOUT) is decided, not the values")
@@ -106,6 +111,11 @@ func controlsC16(cp *Prog, r *Report) {
 		ruleStamp(cp, cr, "stamp", "newStampBad", 1)
 		ruleStamp(cp, cr, "stamp", "newStampOpt", 2)
 	}, "newStampBad/(io/fs.DirEntry).Info")
+	expectControl(r, "R-STAMP/eq", func(cr *Report) {
+		ruleStampIdentity(cp, cr, "stamp", "stampGood", 1)
+		ruleStampIdentity(cp, cr, "stamp", "stampBad", 1)
+	}, "stamp.stampBad")
+	expectControl(r, "R-TRUNC", func(cr *Report) { ruleTruncOnWrite(cp, cr, "stamp", 3) }, "stamp.writeBad/os.OpenFile")
 	expectControl(r, "R-GEN", func(cr *Report) {
 		ruleGenReaders(cp, cr, "R-GEN", func(f *ssa.Function) bool {
 			return fnPkg(f) != nil && fnPkg(f).Path() == "ctl/des"
